@@ -183,6 +183,27 @@ Node SProgram [
       Tok KParenEnd ")" [] []]]]
 .
 
+(* "if (a) x = 1 else y"   (finding assignment-as-if-branch) *)
+Definition c_if_assign : cst :=
+Node SProgram [
+  Node SStatement [
+    Node SIfExpr [
+      Tok KIf "if" [] [TWs];
+      Node SParenExpr [
+        Tok KParenBegin "(" [] [];
+        Node (SLeaf false) [
+          Tok KOther "a" [] []];
+        Tok KParenEnd ")" [] [TWs]];
+      Node (SLeaf false) [
+        Tok KOther "x" [] [TWs]];
+      Node SAssignExpr [
+        Tok KAssign "=" [] [TWs];
+        Node (SLeaf false) [
+          Tok KOther "1" [] [TWs]]];
+      Tok KElse "else" [] [TWs];
+      Node (SLeaf false) [
+        Tok KOther "y" [] []]]]].
+
 (* ---- the hypotheses of the positive theorems are satisfiable ---- *)
 Lemma ok_in_fragment : in_fragment c_ok = true. Proof. vm_compute. reflexivity. Qed.
 Lemma ok_safe : safe_breaks (doc_of 4 c_ok) = true. Proof. vm_compute. reflexivity. Qed.
@@ -232,4 +253,9 @@ Proof. vm_compute. auto. Qed.
 
 Lemma tuple1_comma_lost : in_fragment c_tuple1 = true /\
   all_renderings (doc_of 4 c_tuple1) (String.eqb "(a)") = true.
+Proof. vm_compute. auto. Qed.
+
+Lemma if_assign_dropped : in_fragment c_if_assign = true /\
+  cst_words c_if_assign = ["if"; "("; "a"; ")"; "x"; "="; "1"; "else"; "y"] /\
+  dwords (doc_of 4 c_if_assign) = ["if"; "("; "a"; ")"; "x"; "else"; "y"].
 Proof. vm_compute. auto. Qed.
